@@ -13,7 +13,7 @@ from jinja2.loaders import split_template_path
 from vfw.core import Cond, pick, pickb
 from vfw.support import NoTracing
 
-FUNCTIONS = ["jinja2.loaders.split_template_path", "FileSystemLoader.get_source", "PackageLoader.get_source",
+FUNCTIONS = ["jinja2.loaders.split_template_path", "FileSystemLoader.get_source", "FileSystemLoader.get_source + up-to-date closure across file / searchpath changes", "PackageLoader.get_source",
              "ChoiceLoader.get_source/load", "PrefixLoader.get_loader/get_source/load", "BaseLoader.load", "Environment.get_template"]
 OUTSIDE = ["names longer than 4 characters over the alphabet ./\\\\a: (mode A) or more than 4 segments from the fragment table (mode B)",
            "symlinks, Windows path semantics (os.sep is '/' here; altsep None)", "zip-archive packages"]
@@ -162,6 +162,73 @@ def _one(env, name, sps, parts):
     return True
 
 
+# ---------------------------------------------------------------- mode B: a live FileSystemLoader while files and search path change
+# The search directories are read from ``loader.searchpath`` at every lookup (a documented, public attribute),
+# and files may appear in / disappear from them between lookups.
+HOPS = ["get", "add@0", "del@0", "add@1", "del@1", "path=[0]", "path=[1]", "path=[0,1]"]
+
+
+def HLEN():
+    return P.get("hlen", 4)
+
+
+def fs_hist_ok(h: int) -> bool:
+    """
+    pre: 0 <= h < len(HOPS) ** HLEN()
+    post: _
+    """
+    h = pick(h, len(HOPS) ** HLEN())
+    with NoTracing():
+        return _fs_hist_native(h) is None
+
+
+def _fs_hist_native(h):
+    ops = []
+    for _ in range(HLEN()):
+        ops.append(HOPS[h % len(HOPS)])
+        h //= len(HOPS)
+    ops = ops[::-1] + ["get"]
+    base = tempfile.mkdtemp(prefix="hist-", dir=ROOT)
+    try:
+        dirs = [os.path.join(base, "d0"), os.path.join(base, "d1")]
+        for d in dirs:
+            os.makedirs(d)
+        with open(os.path.join(dirs[1], "x.txt"), "w") as f:
+            f.write("X@1")
+        loader = FileSystemLoader(dirs)
+        env = Environment(loader=loader, cache_size=P.get("cache", 0))
+        cur = [0, 1]
+        for step, op in enumerate(ops):
+            if op.startswith("add@") or op.startswith("del@"):
+                i = int(op[-1])
+                f = os.path.join(dirs[i], "x.txt")
+                if op.startswith("add"):
+                    with open(f, "w") as fh:
+                        fh.write("X@%d" % i)
+                elif os.path.exists(f):
+                    os.remove(f)
+                continue
+            if op.startswith("path="):
+                cur = [int(c) for c in op[6:-1].split(",")]
+                loader.searchpath = [dirs[i] for i in cur]
+                continue
+            exp = next(("X@%d" % i for i in cur if os.path.isfile(os.path.join(dirs[i], "x.txt"))), None)
+            del OPENED[:]
+            for via in ("get_template", "get_source"):
+                try:
+                    got = env.get_template("x.txt").render() if via == "get_template" else loader.get_source(env, "x.txt")[0]
+                except TemplateNotFound:
+                    got = None
+                if got != exp:
+                    return "step %d of %r: %s gave %r, the search path %r holds %r" % (step, ops, via, got, cur, exp)
+            for o in OPENED:
+                if not any(os.path.realpath(o).startswith(os.path.realpath(dirs[i]) + os.sep) for i in cur):
+                    return "step %d of %r: opened %r outside the search path %r" % (step, ops, o, cur)
+        return None
+    finally:
+        shutil.rmtree(base, True)
+
+
 # ---------------------------------------------------------------- mode A: choice / prefix resolution order
 def choice_ok(present: List[bool], which: int) -> bool:
     """
@@ -272,6 +339,14 @@ def conditions(tier, seed):
         out.append(Cond(f"loader[{kind}]", "fs_ok", mode="B", param={"kind": kind, "maxseg": ms}, timeout=to * 2,
                         witnesses=[[[3]], [[4, 8]], [[4, 0, 0, 6][:ms]], [[11]], [[4, 5, 7]], [[0, 6]], [[9]]],
                         bounds=f"names of 1..{ms} segments from {FRAGS!r} joined by '/', real loader on a scratch tree with a sentinel outside; opened files audited"))
+    for cache in (0,):   # the template cache is C25's subject: a cached template is revalidated against the file it came from
+        hl = 5 if th else 4
+        k = len(HOPS)
+        enc = lambda ds: [sum(d * k ** (len(ds) - 1 - i) for i, d in enumerate(ds))]
+        out.append(Cond(f"live FileSystemLoader history[cache_size={cache}]", "fs_hist_ok", mode="B", param={"hlen": hl, "cache": cache}, timeout=to * 2,
+                        witnesses=[enc(([0] * hl + [0, 1, 0])[-hl:]), enc(([0] * hl + [0, 5, 3, 7])[-hl:]), enc(([0] * hl + [0, 6, 4, 7])[-hl:]), enc(([0] * hl + [4, 0, 1, 2])[-hl:])],
+                        bounds=f"all histories of {hl} operations from {HOPS} (then one more get) on a FileSystemLoader over two scratch directories; after every lookup the "
+                               "text served must come from the first directory of the current loader.searchpath that holds the file, and no file outside the current search path may be opened"))
     out.append(Cond("prefix loader with overlapping prefixes", "prefix_ok", mode="B", param={}, timeout=to * 3,
                     witnesses=[[[True, True, False, False, False], False, 1, 0, 0], [[True, False, True, True, False], True, 3, 0, 0], [[True, True, True, True, True], False, 0, 2, 2],
                                [[False, False, True, False, False], False, 4, 1, 1]],
